@@ -831,3 +831,65 @@ Example C14_loop_is_source_inhabited :
   | _ => false
   end = true.
 Proof. vm_compute. reflexivity. Qed.
+
+(* ---- the descriptor writers are the source ----
+   Every theorem of this file about writing (C14_len, C14_tlv, the round trips, C14_write_bodies) speaks about
+   calc_descriptor_length, calc_descriptors_length, enc_descriptor, enc_descriptors, enc_descriptors_with_length and the
+   body encoders enc_* of Model/Desc.v. Each is, for every argument, what go/gen (psiwritegen.go) translates from the CURRENT
+   source of descriptor.go into Gen/PsiWriteGen.v: calcDescriptorLength (the tag switch), calcDescriptorsLength (the uint16
+   accumulation: skipping empty descriptors, adding in uint8, trusting d.Length change the regenerated definition),
+   writeDescriptor (tag, uint8 length, dispatch with its nil dereferences, count), writeDescriptors,
+   writeDescriptorsWithLength, the 24 body writers and the DVB time / duration writers around their float core
+   (Proofs/PsiWriteGenDesc.v, PsiWriteGenBodies.v, PsiWriteGenDvb.v; wfn_sim / wfe_sim of Proofs/PsiWriteGenBase.v). Not
+   regenerated: calcDescriptorUserDefinedLength, calcDescriptorExtensionLength (hand models) and the float64 /
+   package-time expressions of dvb.go (the integer functions of Model/DvbDate.v, C15). *)
+Require Import Gen.MuxGen Gen.WriteGen Gen.PsiWriteGen Proofs.WriteGenBase Proofs.PsiWriteGenBase Proofs.PsiWriteGenDvb
+  Proofs.PsiWriteGenAll.
+Theorem C14_writers_are_source :
+  (forall d, gcalcDescriptorLength d = calc_descriptor_length d) /\
+  (forall ds, gcalcDescriptorsLength ds = calc_descriptors_length ds) /\
+  (forall d, wfn_sim (gwriteDescriptor d) (enc_descriptor d) (descriptor_written d)) /\
+  (forall ds, wfn_sim (gwriteDescriptors ds) (enc_descriptors ds) (descriptors_written ds)) /\
+  (forall ds, wfn_sim (gwriteDescriptorsWithLength ds) (enc_descriptors_with_length ds) (descriptors_written ds + 2)).
+Proof. exact descriptor_writers_are_source. Qed.
+Print Assumptions C14_writers_are_source.
+Theorem C14_body_writers_are_source :
+  (forall d, wfe_sim (PsiWriteGen.writeDescriptorUserDefined d) (Ok [WBytes d])) /\
+  (forall d, wfe_sim (PsiWriteGen.writeDescriptorAC3 d) (Ok (enc_ac3 d))) /\
+  (forall d, wfe_sim (PsiWriteGen.writeDescriptorAVCVideo d) (Ok (enc_avc_video d))) /\
+  (forall d, wfe_sim (PsiWriteGen.writeDescriptorComponent d) (Ok (enc_component d))) /\
+  (forall d, wfe_sim (PsiWriteGen.writeDescriptorContent d) (Ok (enc_content d))) /\
+  (forall d, wfe_sim (PsiWriteGen.writeDescriptorDataStreamAlignment d) (Ok (enc_data_stream_alignment d))) /\
+  (forall d, wfe_sim (PsiWriteGen.writeDescriptorEnhancedAC3 d) (Ok (enc_enhanced_ac3 d))) /\
+  (forall d, wfe_sim (PsiWriteGen.writeDescriptorExtendedEvent d) (Ok (enc_extended_event d))) /\
+  (forall d, wfe_sim (PsiWriteGen.writeDescriptorExtensionSupplementaryAudio d) (Ok (enc_extension_supplementary_audio d))) /\
+  (forall d, wfe_sim (PsiWriteGen.writeDescriptorExtension d) (enc_extension d)) /\
+  (forall d, wfe_sim (PsiWriteGen.writeDescriptorISO639LanguageAndAudioType d) (Ok (enc_iso639 d))) /\
+  (forall d, wfe_sim (gwriteDescriptorLocalTimeOffset d) (Ok (enc_local_time_offset d))) /\
+  (forall d, wfe_sim (PsiWriteGen.writeDescriptorMaximumBitrate d) (Ok (enc_maximum_bitrate d))) /\
+  (forall d, wfe_sim (PsiWriteGen.writeDescriptorNetworkName d) (Ok (enc_network_name d))) /\
+  (forall d, wfe_sim (PsiWriteGen.writeDescriptorParentalRating d) (Ok (enc_parental_rating d))) /\
+  (forall d, wfe_sim (PsiWriteGen.writeDescriptorPrivateDataIndicator d) (Ok (enc_private_data_indicator d))) /\
+  (forall d, wfe_sim (PsiWriteGen.writeDescriptorPrivateDataSpecifier d) (Ok (enc_private_data_specifier d))) /\
+  (forall d, wfe_sim (PsiWriteGen.writeDescriptorRegistration d) (Ok (enc_registration d))) /\
+  (forall d, wfe_sim (PsiWriteGen.writeDescriptorService d) (Ok (enc_service d))) /\
+  (forall d, wfe_sim (PsiWriteGen.writeDescriptorShortEvent d) (Ok (enc_short_event d))) /\
+  (forall d, wfe_sim (PsiWriteGen.writeDescriptorStreamIdentifier d) (Ok (enc_stream_identifier d))) /\
+  (forall d, wfe_sim (PsiWriteGen.writeDescriptorSubtitling d) (Ok (enc_subtitling d))) /\
+  (forall d, wfe_sim (PsiWriteGen.writeDescriptorTeletext d) (Ok (enc_teletext d))) /\
+  (forall d, wfe_sim (PsiWriteGen.writeDescriptorVBIData d) (Ok (enc_vbi_data d))) /\
+  (forall d, wfe_sim (PsiWriteGen.writeDescriptorUnknown d) (Ok (enc_unknown d))) /\
+  (forall d, wfn_sim (gwriteDVBDurationMinutes d) (Ok (enc_dvb_duration_minutes d)) 2) /\
+  (forall d, wfn_sim (gwriteDVBDurationSeconds d) (Ok (enc_dvb_duration_seconds d)) 3) /\
+  (forall t, wfn_sim (gwriteDVBTime t) (Ok (enc_dvb_time t)) 5).
+Proof. exact descriptor_bodies_are_source. Qed.
+Print Assumptions C14_body_writers_are_source.
+(* the translated descriptor writer runs inside the translated PMT writer: a user-defined program descriptor and a
+   stream identifier descriptor; and on its own: the two descriptors behind their 12-bit loop length, 10 bytes *)
+Example C14_writers_are_source_inhabited :
+  snd (gwritePSIData ex_psi) = Some (30, ENil) /\
+  Ok (bytes_of_items (map snd (fst (gwritePSIData ex_psi)))) = Model.Psi.write_psi_data ex_psi /\
+  snd (gwriteDescriptorsWithLength [ex_desc_user; ex_desc_stream_id]) = Some (10, ENil) /\
+  bytes_of_items (map snd (fst (gwriteDescriptorsWithLength [ex_desc_user; ex_desc_stream_id]))) =
+    [240; 8; 200; 3; 1; 2; 3; 82; 1; 7].
+Proof. vm_compute. repeat split. Qed.
